@@ -765,8 +765,32 @@ def pure_links(doc):
     return tuple((id(b), b.document is doc, getattr(b._namespaces, "parent", None) is doc._namespaces) for b in doc._bundles.values())
 
 
+def pure_lookups(doc, hub=None):
+    """What a look-up by identifier answers, and in which order: per container, every identifier its records carry with the objects
+    that get_record() lists for it.  Asked through the public method, with the other monitors passing through."""
+    hub = hub or HUB
+    out = []
+    hub.quiet += 1
+    try:
+        for c in [doc] + list(getattr(doc, "_bundles", {}).values()):
+            seen, rows = set(), []
+            for rec in c._records:
+                ident = rec._identifier
+                if ident is None or ident.uri in seen:
+                    continue
+                seen.add(ident.uri)
+                try:
+                    rows.append((ident.uri, tuple(id(x) for x in (c.get_record(ident) or ()))))
+                except Exception as e:
+                    rows.append((ident.uri, type(e).__name__))
+            out.append(tuple(rows))
+    finally:
+        hub.quiet -= 1
+    return tuple(out)
+
+
 def pure_snapshot(doc):
-    return (strict.ordered(doc), strict.nsview(doc), strict.printed(doc), pure_links(doc))
+    return (strict.ordered(doc), strict.nsview(doc), strict.printed(doc), pure_links(doc), pure_lookups(doc))
 
 
 def pure_compare(before, after):
@@ -799,6 +823,16 @@ def pure_compare(before, after):
     if len(before) > 3 and len(after) > 3 and before[3] != after[3] and not msgs:
         msgs.append("ownership of the bundles changed (bundle objects, bundle.document, inherited namespace scope): %r -> %r"
                     % ([x[1:] for x in before[3]], [x[1:] for x in after[3]]))
+    if len(before) > 4 and len(after) > 4 and before[4] != after[4] and not msgs:
+        for c1, c2 in zip(before[4], after[4]):
+            for (u1, l1), (u2, l2) in zip(c1, c2):
+                if (u1, l1) != (u2, l2):
+                    same = isinstance(l1, tuple) and isinstance(l2, tuple) and sorted(l1) == sorted(l2)
+                    msgs.append("get_record(<%s>) lists %s" % (u1, "the same records in another order" if same else "other records than before (%r -> %r)"
+                                                                  % (l1 if not isinstance(l1, tuple) else len(l1), l2 if not isinstance(l2, tuple) else len(l2))))
+                    break
+            if msgs:
+                break
     return msgs
 
 
